@@ -192,8 +192,15 @@ impl Tileset<RawPixels> {
                 None
             } else {
                 let _compressed_length = reader.dword()?;
-                let expected_pixel_count =
-                    (tile_count * (tile_height as u32) * (tile_width as u32)) as usize;
+                let expected_pixel_count = (tile_count as usize)
+                    .checked_mul(tile_height as usize)
+                    .and_then(|n| n.checked_mul(tile_width as usize))
+                    .ok_or_else(|| {
+                        AsepriteParseError::InvalidInput(format!(
+                            "Tileset too large: {} tiles of {}x{} pixels",
+                            tile_count, tile_width, tile_height
+                        ))
+                    })?;
                 RawPixels::from_compressed(reader, pixel_format, expected_pixel_count).map(Some)?
             }
         };
